@@ -131,6 +131,7 @@ package bitcoin
 //@   fresh result
 //@
 //@ func (*SchnorrPrivateKey).PublicKey
+//@   ct
 //@   props C14
 //@   ensures result == k.publicKey
 //@
@@ -154,6 +155,7 @@ package bitcoin
 //@   modifies rdstate(rand), rdstate(osrand())
 //@
 //@ func (*SchnorrPrivateKey).Equal
+//@   ct
 //@   props C14 C18
 //@   split dyn x SchnorrPrivateKey
 //@   ensures isdyn(x, SchnorrPrivateKey) ==> (result <==> val(k.dPrime) == val(x.(*SchnorrPrivateKey).dPrime))
@@ -170,6 +172,8 @@ package bitcoin
 //@   using ptxy_point(abs(x.(*SchnorrPublicKey).point))
 //@
 //@ func NewSchnorrPrivateKey
+//@   ct
+//@   declassify err: rejecting an out-of-range or zero key reveals only that the input was invalid (as in secec.NewPrivateKey)
 //@   props C14 C18
 //@   split len(key) in 32..32 else
 //@   split case len(key) == 32 && os2ipv(key) >= 1 && os2ipv(key) < N
@@ -185,10 +189,12 @@ package bitcoin
 //@   fresh result
 //@
 //@ func (*SchnorrPrivateKey).Public
+//@   ct
 //@   props C14 C18
 //@   ensures isdyn(result, SchnorrPublicKey)
 //@
 //@ func GenerateSchnorrKey
+//@   ct
 //@   props C14 C18
 //@   split case result1 == nil
 //@   ensures result1 == nil ==> fresh(result0.dPrime) && fresh(result0.d) && fresh(result0.publicKey)
